@@ -92,19 +92,24 @@ def rg_part(chk, tier, recs):
             sc.write(d + "e/clean", b"x\nxx\n")
             for naming in ("implicit", "explicit", "mixed"):
                 for mode, fl in (("default", []), ("binary", ["--binary"]), ("text", ["--text"])):
-                    for strat in ("--mmap", "--no-mmap", "--mmap-U", "--pre"):
+                    for strat in ("--mmap", "--no-mmap", "--mmap-U", "--pre", "-Eutf8", "--reader-U"):
                         for ctx in ([], ["-C1"], ["-c"], ["-l"], ["--files-without-match"], ["-c", "--include-zero"],
                                     ["--count-matches", "--include-zero"]):
                             if ctx and mode == "text":
                                 continue
-                            if strat == "--pre" and (naming == "mixed" or k % 2 or ctx not in ([], ["-C1"], ["-c"])):
+                            if strat in ("--pre", "-Eutf8", "--reader-U") and (naming == "mixed" or k % 2 or ctx not in ([], ["-C1"], ["-c"])):
                                 continue
+                            if strat == "-Eutf8" and any(c >= 0x80 for c in b):
+                                continue         # (a forced utf-8 label changes nothing only for ASCII input)
                             if strat == "--mmap-U" and (ctx or len(b) > 60000 or naming == "mixed"):
                                 continue
                             if ctx and ctx != ["-C1"] and (naming == "mixed" or k % 3):
                                 continue
                             # ("--pre": the file reaches the searcher through a preprocessor that hands it through unchanged)
-                            args = ["--no-config", "--color", "never", "-j1", "-n", "-I", "--no-heading"] + ([strat] if strat != "--pre" else ["--pre", "cat"]) + fl + ctx + ["-e", "m"]
+                            # ("-Eutf8": a forced label under which the bytes stay what they are; "--reader-U": multi-line mode requested
+                            #  for a pattern that cannot match the terminator, so the search stays line by line through the reader)
+                            sargs = {"--pre": ["--pre", "cat"], "-Eutf8": ["-E", "utf-8", "--no-mmap"], "--reader-U": ["--no-mmap", "-U"]}.get(strat, [strat])
+                            args = ["--no-config", "--color", "never", "-j1", "-n", "-I", "--no-heading"] + sargs + fl + ctx + ["-e", "m"]
                             if strat == "--mmap-U":
                                 # multi-line strategy: a pattern that selects the same lines but can match the terminator
                                 args = ["--no-config", "--color", "never", "-j1", "-n", "-I", "--no-heading", "--mmap", "-U"] + fl + ctx + ["-e", "m[^\\n]*\\n?"]
